@@ -10,7 +10,7 @@ use crate::ri;
 
 pub struct C17;
 
-fn random_cfg() -> Cfg {
+pub fn random_cfg() -> Cfg {
     let mut c = Cfg::flow();
     c.max_virtual = 1;
     c.virtual_random = true;
